@@ -42,6 +42,56 @@ def _verify_item(item):
     return rep.to_dict()
 
 
+def _path_task(task):
+    qn, case_idx, prop, prefix, first = task
+    from pyvc import engine
+    from pyvc.contracts import REGISTRY
+
+    load_property(prop)
+    con = REGISTRY.contracts[qn]
+    cases = engine.cases_of(con)
+    d, new = engine.explore_one(con, cases[case_idx], prefix, first)
+    return (qn, case_idx), d, new
+
+
+MAX_PATHS_PER_FUNCTION = 60000
+FUNCTION_BUDGET_S = 1500
+
+
+def verify_all(items, prop, jobs):
+    """Path-level work distribution: every path of every (function, case) is one pool task; a task
+    returns the decision prefixes of the sibling paths it discovered."""
+    from pyvc import engine
+
+    acc = {}
+    counts = {}
+    started = {}
+    ctxm = mp.get_context("fork")
+    with cf.ProcessPoolExecutor(max_workers=max(1, jobs), mp_context=ctxm) as ex:
+        pending = set()
+        for qn, ci, _p in items:
+            pending.add(ex.submit(_path_task, (qn, ci, prop, [], True)))
+            counts[(qn, ci)] = 1
+            started[(qn, ci)] = time.time()
+        while pending:
+            done, pending = cf.wait(pending, return_when=cf.FIRST_COMPLETED)
+            for fut in done:
+                key, d, new = fut.result()
+                acc[key] = engine.merge_reports(acc.get(key), d)
+                if d["error"] or d["outside_reach"]:
+                    continue
+                for pre in new:
+                    if counts[key] >= MAX_PATHS_PER_FUNCTION:
+                        acc[key]["outside_reach"] = f"more than {MAX_PATHS_PER_FUNCTION} paths"
+                        break
+                    if time.time() - started[key] > FUNCTION_BUDGET_S:
+                        acc[key]["outside_reach"] = f"time budget {FUNCTION_BUDGET_S}s exhausted"
+                        break
+                    counts[key] += 1
+                    pending.add(ex.submit(_path_task, (key[0], key[1], prop, pre, False)))
+    return [acc[(qn, ci)] for qn, ci, _p in items if (qn, ci) in acc]
+
+
 def _replay_item(item):
     qn, inputs, only, prop, awaits = item
     from pyvc import replay
@@ -109,10 +159,8 @@ def run_property(prop, tier, seed, args):
             for i, _ in enumerate(engine.cases_of(con)):
                 items.append((qn, i, prop))
     reports = []
-    ctxm = mp.get_context("fork")
     if items:
-        with cf.ProcessPoolExecutor(max_workers=max(1, min(args.jobs, len(items))), mp_context=ctxm) as ex:
-            reports = list(ex.map(_verify_item, items))
+        reports = verify_all(items, prop, args.jobs)
     extra = []
     for fn in index.EXTRA_OBLIGATIONS.get(prop, []):
         extra.extend(fn(tier))
@@ -255,6 +303,11 @@ def run_property(prop, tier, seed, args):
             print(v)
         return 1
     if errors:
+        return 3
+    if undecided or bounded_only:
+        # never a verdict: neither "held" nor a violation
+        print(f"UNDECIDED property={prop}: {len(undecided)} obligation(s) undecided, {len(bounded_only)} function(s) outside reach"
+              " (run with -v for the list)")
         return 3
     return 0
 
